@@ -3,6 +3,8 @@
 //! Modelled kinds (obs compared with the extracted Coq model NV.Async.Framing):
 //!   frame  <file> <nvalid> <mode> <seed> <chunks> <workers>  block transcript of the ASYNC bgzf reader under a
 //!                                                   poll script and of the SYNC reader, both against the model
+//!   ardr   <file> <frames> <index> <ops> <mode> <seed> <workers> <pool> <segs>   (c16_model_rw.rs) op history of
+//!          the real sync and async bgzf readers vs NV.Bgzf.ReaderOps / the pipeline model NV.Async.Reader
 //! Implementation-only differential oracles (sync path vs async path on the same input, under a
 //! poll script): see `c16_fmt.rs` for the format-level kinds.
 //!   bgzfr  <file> <ops> <mode> <seed> <workers>     bgzf reader op transcript (bytes, vpos, seek)
@@ -20,6 +22,8 @@ use tokio::io::{AsyncBufReadExt, AsyncReadExt, AsyncWriteExt};
 mod c16_adversary;
 #[path = "../shared/c16_fmt.rs"]
 mod c16_fmt;
+#[path = "../shared/c16_model_rw.rs"]
+mod c16_model_rw;
 
 use c16_adversary::{AdvReader, AdvWriter, Sched, block_on};
 
@@ -886,6 +890,10 @@ fn generate(rng: &mut Rng, tier: &str, w: &mut CaseWriter) {
             ],
         );
     }
+    let n = if thorough { 4000 } else { 300 };
+    for i in 0..n {
+        c16_model_rw::gen_ardr(rng, w, i % 12 == 0);
+    }
     c16_fmt::generate(rng, tier, w);
 }
 
@@ -894,6 +902,7 @@ fn run(c: &Case) -> Obs {
         "frame" => run_frame(c),
         "bgzfr" => run_bgzfr(c),
         "bgzfw" => run_bgzfw(c),
+        "ardr" => c16_model_rw::run_ardr(c),
         k => match c16_fmt::run(c) {
             Some(o) => o,
             None => Obs::fail("-", "harness-unknown-kind", k),
